@@ -37,6 +37,7 @@ import GocoinV.Proofs.C20Lock
 import GocoinV.Proofs.C20Total
 import GocoinV.Proofs.C20Clobber
 import GocoinV.Proofs.C20Example
+import GocoinV.Proofs.C20Node
 namespace GocoinV.Props.C20
 open GocoinV.Alloc GocoinV.Gen.MemClasses
 
@@ -611,5 +612,79 @@ example : ∃ (s : State Nat) (p i : Nat), Inv s ∧ s.isLive (.sh p i) := by
   split at h2
   · cases h2
   · cases h2; exact ⟨_, _, _, i1.1, hl⟩
+
+/-! ## The allocator as wired into the node (client/common/config.go)
+
+`Model/AllocNode.lean`: the configuration state machine of the three wiring variables `common.Memory`,
+`utxo.Memory_Malloc`, `utxo.Memory_Free`.  Its transitions consult the regenerated source facts
+`Gen.MemWire.*` (go/cmd/gen_c20/wire.go: who writes the three variables and from where those writers are
+reachable), so the statements below are about what the CURRENT source does on a run-time config change. -/
+
+open AllocNode in
+/-- The regenerated facts say: no writer of the wiring variables is reachable from `common.Reset` or from any
+other run-time path, `InitConfig` runs once, and Malloc / Free are bound to the allocator stored in
+`common.Memory`.  (When the source moves the wiring block into Reset(), re-creates the allocator in a command
+handler, or binds Free to another allocator, this stops compiling.) -/
+theorem node_wiring_facts : srcFacts.Stable := by unfold Facts.Stable; decide
+
+open AllocNode in
+/-- For every start-up mode and EVERY history of run-time operations afterwards (config changes through
+`Reset()`, any other entry point, Malloc, Free, defragmentation, even a repeated InitConfig): Malloc and Free
+stay bound to the same place; when the node has an allocator to report on (`common.Memory`), that allocator
+is the one both are bound to, every live record was allocated by it, and its `Allocs` equals the number of live
+records; when it has none, both are the Go-heap defaults and no record lives in an allocator. -/
+theorem node_wiring_stable (useGoHeap : Bool) (ops : List Op) :
+    Wired (run srcFacts (step srcFacts Node.empty (.initConfig useGoHeap)) ops) :=
+  (wired_run srcFacts node_wiring_facts ops _ (started_init _ _) (wired_init _ node_wiring_facts _)).1
+
+open AllocNode in
+/-- "The allocator's count of live allocations always equals the number actually live", at the node: the
+counter of the allocator the node reports on and defragments is the number of records handed out through
+`utxo.Memory_Malloc` and not yet returned through `utxo.Memory_Free`, after any history. -/
+theorem node_reported_allocs_exact (ops : List Op) :
+    let s := run srcFacts (step srcFacts Node.empty (.initConfig false)) ops
+    reportedAllocs s = some (s.live.length : Int) := by
+  intro s
+  have w := node_wiring_stable false ops
+  have hr := (reporting_run srcFacts node_wiring_facts ops _ (started_init srcFacts false)).1
+  have h0 : (step srcFacts Node.empty (.initConfig false)).reporting = some 0 := by
+    simp [AllocNode.step, Node.empty, rewire]
+  have hrep := w.rep
+  rw [show (run srcFacts (step srcFacts Node.empty (.initConfig false)) ops).reporting = some 0 from hr.trans h0] at hrep
+  show Option.map _ s.reporting = _
+  rw [show s.reporting = some 0 from hr.trans h0]
+  simp only [Option.map_some]
+  exact congrArg some hrep.2.2.1
+
+open AllocNode in
+/-- The allocator created at start-up is never replaced: after any history `common.Memory`, the Malloc binding
+and the Free binding are what InitConfig left. -/
+theorem node_allocator_never_replaced (useGoHeap : Bool) (ops : List Op) :
+    let s0 := step srcFacts Node.empty (.initConfig useGoHeap)
+    let s := run srcFacts s0 ops
+    s.reporting = s0.reporting ∧ s.mallocTo = s0.mallocTo ∧ s.freeTo = s0.freeTo :=
+  reporting_run srcFacts node_wiring_facts ops _ (started_init _ _)
+
+open AllocNode in
+/-- Each fact is needed (so the theorems above are sensitive to the source): with a wiring block reachable
+from Reset(), one config change after one Malloc leaves the reported allocator at Allocs = 0 with one record
+live, and freeing that record drives it to −1 (Free accepts the foreign slot); the same through any other
+run-time writer; with a second InitConfig; and with Free bound elsewhere than Malloc the count never falls. -/
+theorem node_wiring_facts_needed :
+    (∀ f : Facts, f.resetRewires = true → f.paired = true →
+      let s := run f (step f Node.empty (.initConfig false)) [.malloc, .reset false]
+      reportedAllocs s = some 0 ∧ s.live.length = 1 ∧
+      reportedAllocs (step f s (.free 0)) = some (-1) ∧ (step f s (.free 0)).live.length = 0) ∧
+    (∀ f : Facts, f.runtimeRewires = true → f.paired = true →
+      let s := run f (step f Node.empty (.initConfig false)) [.malloc, .other false]
+      reportedAllocs s = some 0 ∧ s.live.length = 1) ∧
+    (∀ f : Facts, f.initOnce = false → f.paired = true →
+      let s := run f (step f Node.empty (.initConfig false)) [.malloc, .initConfig false]
+      reportedAllocs s = some 0 ∧ s.live.length = 1) ∧
+    (∀ f : Facts, f.paired = false →
+      let s := run f (step f Node.empty (.initConfig false)) [.malloc, .free 0]
+      reportedAllocs s = some 1 ∧ s.live.length = 0) := by
+  refine ⟨?_, ?_, ?_, ?_⟩ <;> intro f <;> rcases f with ⟨a, b, c, d⟩ <;>
+    cases a <;> cases b <;> cases c <;> cases d <;> decide
 
 end GocoinV.Props.C20
